@@ -139,7 +139,9 @@ let run_callers ?(any = false) (self : bytes) (toks : string list) (impl : strin
   | l -> String.concat " " l
 
 (* ---- both components end to end (harness/C17/zz_verif_c17_e2e_test.go) ---- *)
-let e2e_tuples = [| "100.10.02aabbcc0001"; "100.10.02aabbcc0011"; "100.11.02aabbcc0001"; "100.0.02aabbcc0002" |]
+let e2e_tuples = [| "100.10.02aabbcc0001"; "100.10.02aabbcc0011"; "100.11.02aabbcc0001"; "100.0.02aabbcc0002"; "101.10.02aabbcc0001"; "100.10.06aabbcc0001"; "100.10.02abbbcc0001"; "100.10.02aabacc0001"; "100.10.02aabbcd0001"; "100.10.02aabbcc0101" |]
+let e2e_all = [0; 1; 2; 3; 4; 5; 6; 7; 8; 9]
+let e2e_empty s = let n = String.length s in n >= 7 && String.sub s (n - 7) 7 = ":i0p0:-"
 let run_e2e (v : variant) (toks : string list) : string =
   let show1 w t =
     let k = key_of_tok e2e_tuples.(t) in
@@ -149,7 +151,7 @@ let run_e2e (v : variant) (toks : string list) : string =
       | Some p -> if p = proto_ipoe then "i" else if p = proto_pppoe then "p" else "?" in
     Printf.sprintf "t%d:i%dp%d:%s" t (int_of_nat ni) (int_of_nat np) o in
   (* all four tuples after every op, the op's own tuple first *)
-  let show w t = String.concat "," (show1 w t :: List.filter_map (fun u -> if u = t then None else Some (show1 w u)) [0; 1; 2; 3]) in
+  let show w t = String.concat "," (show1 w t :: List.filter_map (fun u -> if u = t then None else (let x = show1 w u in if e2e_empty x then None else Some x)) e2e_all) in
   let rec go w toks acc =
     match toks with
     | [] -> List.rev acc
@@ -174,7 +176,7 @@ let run_ae2e (v : variant) (toks : string list) (impl : string list) : string =
       | None -> "-"
       | Some p -> if p = proto_ipoe then "i" else if p = proto_pppoe then "p" else "?" in
     Printf.sprintf "t%d:i%dp%d:%s" t (int_of_nat ni) (int_of_nat np) o in
-  let show w t = String.concat "," (show1 w t :: List.filter_map (fun u -> if u = t then None else Some (show1 w u)) [0; 1; 2; 3]) in
+  let show w t = String.concat "," (show1 w t :: List.filter_map (fun u -> if u = t then None else (let x = show1 w u in if e2e_empty x then None else Some x)) e2e_all) in
   let rec go aw toks acc =
     match toks with
     | [] -> List.rev acc
@@ -212,7 +214,7 @@ let run_restore ?(halfopen_unclaimed = false) (real_is_pppoe : bool) (v : varian
       | None -> "-"
       | Some p -> if p = proto_ipoe then "i" else if p = proto_pppoe then "p" else "?" in
     Printf.sprintf "t%d:i%dp%d:%s" t (int_of_nat ni) (int_of_nat np) o in
-  let show w t = String.concat "," (show1 w t :: List.filter_map (fun u -> if u = t then None else Some (show1 w u)) [0; 1; 2; 3]) in
+  let show w t = String.concat "," (show1 w t :: List.filter_map (fun u -> if u = t then None else (let x = show1 w u in if e2e_empty x then None else Some x)) e2e_all) in
   let rec go w toks acc =
     match toks with
     | [] -> List.rev acc
